@@ -26,6 +26,10 @@ from .c03 import _Only
 def run(ctx):
     facts = ctx.bin
     g = ctx.grammar
+    # "every statement that received a reference is still recognised afterwards": the parse must not be able to give up
+    # on a file (a parser work limit reached only *after* the insertions made the file longer loses the whole file)
+    from .finder import rule_parse_complete
+    rule_parse_complete(ctx, facts, "C06-R1")
     # R1 — reuse C12's automata obligations under C06 names
     sub = _Only(ctx, "C06-R1", ("regex-language", "regex-anchor", "regex-groups", "regex-group-span", "token-shape", "token-spelling",
                                 "token-recognised", "token-doc-regex", "token-display", "anchor|", "template-decode", "parse-u32", "group-1", "some-payload"))
